@@ -5,6 +5,7 @@
 package raft
 
 import (
+	"google.golang.org/grpc"
 	"github.com/marekgalovic/anndb/cluster"
 	pb "github.com/marekgalovic/anndb/protobuf"
 	uuid "github.com/satori/go.uuid"
@@ -14,6 +15,7 @@ import (
 	"github.com/marekgalovic/anndb/storage/wal"
 )
 
+var _ *grpc.ClientConn
 var _ etcdRaft.Node
 var _ raftpb.Entry
 var _ wal.WAL
@@ -458,3 +460,27 @@ var _ *pb.SharedGroupProposal
 //@ loop 1
 //@ invariant [C14 captured-so-far] proxySnapshots != nil && fresh(proxySnapshots) && forall n string :: $visited[n] && this.proxies[n].snapshotFn != nil ==> has(proxySnapshots, n)
 //@ invariant [consumers-fixed] forall n string :: has(this.proxies, n) == $start[n] && (has(this.proxies, n) ==> this.proxies[n] != nil && this.proxies[n].name == n)
+
+// ---------------------------------------------------------------------------------------------
+// C20 (a member can still reach every peer after the peer's address changed or the peer came back): a raft transport client
+// handed out for a node is built, at that moment, on the connection cluster.Conn holds for the node - never on one kept from
+// an earlier call (cluster.Conn closes and replaces connections when an address changes or a node is removed). The client map
+// is read (a client put there explicitly wins) but not written: keeping a client here is a frame violation of this contract.
+//@ ufunc raftStubOver(pb.RaftTransportClient) *grpc.ClientConn
+//@ func protobuf.NewRaftTransportClient
+//@ props C20
+//@ assume
+//@ ensures [stub] !isnil(ret) && raftStubOver(ret) == asptr(cc.pay, grpc.ClientConn)
+//@ modifies nothing
+
+//@ func (*storage/raft.RaftTransport).getNodeRaftTransportClient
+//@ props C20
+//@ safety UNCLAIMED
+//@ ghost dialled *grpc.ClientConn = nil
+//@ at call Conn).Dial
+//@ set dialled = $ret0
+//@ end
+//@ requires [wf] this.clusterConn != nil && this.clusterConn.addresses != nil && this.clusterConn.conns != nil && forall j uint64 :: has(this.clusterConn.conns, j) ==> this.clusterConn.conns[j] != nil
+//@ ensures [C20 client-over-the-current-connection] isnil(ret1) && !old(has(this.nodeClients, nodeId)) ==> !isnil(ret0) && dialled != nil && raftStubOver(ret0) == dialled && has(this.clusterConn.conns, nodeId) && this.clusterConn.conns[nodeId] == dialled
+//@ ensures [C20 unknown-node-is-an-error] !old(has(this.nodeClients, nodeId)) && !old(has(this.clusterConn.conns, nodeId)) && !has(this.clusterConn.addresses, nodeId) ==> !isnil(ret1)
+//@ modifies map(this.clusterConn.conns)
